@@ -23,6 +23,8 @@ import YarlProofs.C08Multi
   The file has two halves: first the single-cache machine above (theorems `C08_headline_*`), then — after a second
   vocabulary block — the machine with SEVERAL caches, derivations (modifiers), `hash` and comparisons of
   YarlModel/CacheMulti.lean (theorems `C08_headline_multi_*`, proofs in C08Multi.lean), which closes GAPS 1, 2, 6.
+  Continued in C08HeadlineMore3.lean (GAPS 7: the end-to-end bridge to the monolithic model for EVERY derivation incl. `join` /
+  `.fn f`; GAPS 4: raising constructors are never cached; proofs in C08Bridge.lean).
 -/
 set_option linter.unusedVariables false
 set_option linter.unusedSectionVars false
@@ -372,26 +374,78 @@ GAPS:
     and keep their parts under every program.  STILL OPEN as before: non-URL arguments are immutable `Str` / lists in the model, so
     nothing is stated; for the one mutable argument kind of the real API (a query mapping / MultiDict) see C12 ("the argument
     is never mutated").
- 4. PARTLY CLOSED by C08_multi_history_independent (C08Multi.lean), see C08_headline_multi_history_independent /
-    C08_headline_multi_yarl_history_independent: in the multi-cache machine a raising call or derivation outputs
-    `.handle (.error exc)` WITH the exception, so "(value or exception)" is compared exactly (the single-cache machine collapses every
-    constructor exception to `Out.handle none`).  STILL OPEN: a constructor that raises is not cached in the model
-    (`construct k = .error _` ⇒ no table entry); that this matches `lru_cache` (exceptions are not cached) is by construction,
-    not a theorem.
+ 4. CLOSED (model-level) by C08_multi_history_independent (C08Multi.lean), see C08_headline_multi_history_independent /
+    C08_headline_multi_yarl_history_independent, and by C08_bridge_failed_ctor_world_unchanged, C08_bridge_raising_op_no_effect,
+    C08_bridge_failed_ctor_never_cached, C08_bridge_failed_ctor_same_error (C08Bridge.lean), see
+    C08_headline_raising_call_leaves_world_unchanged, C08_headline_failed_constructor_never_cached,
+    C08_headline_failed_constructor_same_error, C08_headline_yarl_failed_constructor_never_cached (C08HeadlineMore3.lean).
+    Proved: in the multi-cache machine a raising call or derivation outputs `.handle (.error exc)` WITH the exception, so
+    "(value or exception)" is compared exactly (the single-cache machine collapses every constructor exception to
+    `Out.handle none`); and what was "by construction, not a theorem" is now proved about the machine: a constructor call whose
+    `construct k` raises — indeed ANY operation that outputs an exception — returns the world as it was (heap, every table of every
+    cache and generation, derivation memo, capacities, bindings); after ANY program from the empty world no table of any cache or
+    generation holds an entry for a raising key; EVERY occurrence of `.new k` in any program outputs the same `.handle (.error x)`;
+    instance for `yarlMSem` stated on the model's constructors (`ymodel e key = .error x`).  Hypotheses: NONE for the sequential
+    statements (any semantics, capacities, policies, initial bindings; `PrefillOK` / `MemoNamesOK` not needed); the thread variant
+    C08_bridge_failed_ctor_never_cached_threads (see C20_headline_multi_raising_key_never_cached, C20HeadlineMore3.lean) goes through
+    the coherence invariant and needs `PrefillOK`, `MemoNamesOK` and a coherent initial world.  What stays TRUSTED, not proved: these
+    are theorems about the MODEL's `call` (look-up, else `construct`, store only on `.ok`); that CPython's `functools.lru_cache`
+    stores nothing when the wrapped function raises is a fact about CPython which the machine transcribes.
  5. Outside the C09 guard the sentence is FALSE (two `_fails_for_` theorems = F-C09-bracket, F-C09-empty-authority); the
     exact boundary is `GoodAuthority` — see C09Headline for which input families are proved to lie inside it.  (Unchanged in
-    the multi-cache machine: its `encode_url` keys `.url k` are the same `GoodKey e`.)
+    the multi-cache machine: its `encode_url` keys `.url k` are the same `GoodKey e`.  The bridge theorems of item 7 inherit the
+    guard: their side condition `PreOK` is derived for `URL(s)` results from `k.2 : GoodAuthority e k.1`, C08_bridge_preOK.)
  6. CLOSED by C08_multi_hash_cmp_stable, C08_multi_yarl_hash_cmp (C08Multi.lean), see C08_headline_multi_observable_state_stable,
     C08_headline_multi_yarl_hash_and_comparisons.  `hash` and the six comparisons are operations whose outputs are proved to be
     functions of the five parts (through `eqKey`), before and after any history.  Observable state is now "what the 34 accessors
     in `Acc`, `_sort_key`, `hash` and the six comparisons return".
- 7. NEW.  The end-to-end bridge to the monolithic model, C08_headline_multi_yarl_modifier_then_read, is proved for the NAMED
-    modifiers without URL argument applied to a `URL(s)` result (`hm : ∀ f, m ≠ .fn f`, `args = []`): `join` (URL argument) and
-    `.fn f` are covered only at the level of the five parts (C08_headline_multi_yarl_modifier_function_of_arguments: the result is
-    `yapply` on `Url.ofParts` of the handle values), i.e. without the statement that the `pre` field of the monolithic value is
-    irrelevant to them.
+ 7. PARTLY CLOSED (closed for the named modifiers and `join` on constructor results; for `.fn f` only under the hypothesis
+    `PreBlind`, item 9; for handles not created by a constructor call only relative to a hypothesis, item 10) — under the two
+    side conditions named below — by C08_bridge_mod_output, C08_bridge_mod_then_read,
+    C08_bridge_mod_then_sort_key, C08_bridge_ctor_mod_read, C08_bridge_join_then_read, C08_bridge_valOf_new,
+    C08_bridge_pre_irrelevant, C08_bridge_pre_irrelevant_unconditional, C08_bridge_args_pre_irrelevant,
+    C08_bridge_modifier_reads_only_parts, C08_bridge_preOK, C08_bridge_preBlind_instances, C08_bridge_preBlind_chain (C08Bridge.lean),
+    see C08_headline_bridge_modifier_function_of_model_values, C08_headline_bridge_any_modifier_then_read,
+    C08_headline_bridge_any_modifier_then_sort_key, C08_headline_bridge_constructor_modifier_read, C08_headline_bridge_join_then_read,
+    C08_headline_bridge_constructor_handle_denotes_model_value, C08_headline_bridge_pre_field_irrelevant,
+    C08_headline_bridge_pre_field_irrelevant_unconditional, C08_headline_bridge_modifier_reads_only_parts,
+    C08_headline_bridge_preOK_sources, C08_headline_bridge_preBlind_sufficient, C08_headline_bridge_preBlind_chain
+    (C08HeadlineMore3.lean).  (Was: the bridge C08_headline_multi_yarl_modifier_then_read only for the NAMED modifiers without URL
+    argument applied to a `URL(s)` result; `join` and `.fn f` only at the level of the five parts.)
+    Proved: the `pre` field of the monolithic value is irrelevant, up to the five parts of the result / the exception, to every
+    derivation (`join` with its URL argument and `.fn f` included); a derivation after any history outputs `(yapply e m u us).map
+    parts` for monolithic values `u`, `us` of its handles; ctor → any history → derivation → any history → accessor (or
+    `_sort_key`) answers the accessor on the model's result, for the result of ANY constructor (`URL(s)` inside the C09 guard,
+    `URL(s, encoded=True)`, `URL.build`, `from_parts`); `a.join(b)` for any two constructor results answers the accessor on the
+    model's `join e ua ub` of the two monolithic values, no side condition left.
+    Hypotheses: (i) `PreOK e u` on the RECEIVER (`net` of the five parts = `net` of the monolithic value; property C09) — DISCHARGED
+    for every constructor result (`.url k` through the C09 guard), every value with `pre = none` and every result of a named
+    modifier on `PreOK` values (C08_bridge_preOK); needed: C08_bridge_pre_relevant_without_preOK, see
+    C08_headline_bridge_fails_without_preOK (not needed for the modifiers other than with_user / with_password / with_host /
+    with_port / origin, nor for URL ARGUMENTS).  (ii) `m.PreBlind e`: `True` for every named modifier and `join`; for `.fn f` the
+    condition `PreBlind e f` on `f` — see item 9.  The accessor answer is stated on `pickleTwin r` (the result without pre-computed
+    entries); it is the accessor on the monolithic result `r` itself when `PreOK e r` (second conjunct of
+    C08_bridge_mod_then_read; always so for a named modifier on a `PreOK` receiver and `PreOK` URL arguments —
+    C08_bridge_join_then_read is stated on `join e ua ub` itself —; for `.fn f` only if `f` is also `PreStable`).
  8. NEW.  `hf` (Python's tuple hash) is an arbitrary but FIXED function per run: hash randomisation between processes
     (pickling to another process) is outside the machine.  Threads: see C20.
+ 9. NEW (side condition introduced by the closure of item 7).  For an ARBITRARY `.fn f` the bridge to the monolithic model is
+    FALSE: C08_bridge_fn_needs_preBlind, see C08_headline_bridge_fails_for_pre_inspecting_fn — `preSpy`, which raises iff the
+    `pre` field of its argument is present, raises on the monolithic value of `URL("http://user@example.com:8080/p")` but
+    returns the URL in the cache machine after any history (the machine applies `f` to `Url.ofParts` of the object's five
+    parts; in Python a method sees the object, not the model's `pre` field, so the disagreement is an artefact of the monolithic
+    record, not a library behaviour).  `PreBlind e f` is DISCHARGED only for: a named modifier with fixed URL arguments, a
+    function of the five parts and `net`, `f >>= g` of such (with `PreStable f`), and chains `ychain e ms` of named modifiers
+    WITHOUT URL arguments (C08_bridge_preBlind_instances, C08_bridge_preBlind_chain).  For any other `f` it is an undischarged
+    hypothesis.  (The history-independence statements of items 1, 2 hold for every `f` without it: they compare the machine with
+    the cache-free specification over the five parts, not with the monolithic model.)
+ 10. NEW.  The general bridge theorems (C08_bridge_mod_output / _mod_then_read / _mod_then_sort_key) take "handle `h` denotes the
+    monolithic value `u`" (`valOf … h = some u.parts`, `valsOf … args = some (us.map parts)`) as HYPOTHESES.  They are
+    discharged for handles created by a constructor call `.new key` anywhere in the program (C08_bridge_valOf_new), which gives
+    the end-to-end instances ctor → derivation → read and ctor, ctor → `join` → read.  For a handle that was itself created by a
+    derivation or by pickling no `C08_` theorem identifies its value with the monolithic result (it can be assembled from
+    C08_bridge_mod_output and C08_headline_multi_yarl_history_independent, but is not stated), and there is no whole-program
+    simulation theorem between the cache machine and an interpreter of the monolithic model.
 -/
 
 end Yarl
